@@ -242,7 +242,9 @@ Definition request_pipeline (om : option matcher) (scheme host : str) (h : hmap)
   set_basic_auth om scheme host (remove_hop_by_hop h).
 
 Inductive hop := ToOrigin | ToProxy.
-Inductive msg_kind := MPlain | MConnect.
+(* MPlain: a request in clear on that hop; MConnect: a CONNECT head; MTunnelled: a request the
+   proxy itself sends to the origin THROUGH a tunnel of the upstream proxy (https target) *)
+Inductive msg_kind := MPlain | MConnect | MTunnelled.
 Record out_msg := { o_to : hop; o_kind : msg_kind; o_fields : hmap }.
 
 (* dialvia DialContextR: header operations in source order (Tables.dialvia_header_ops) *)
@@ -261,8 +263,16 @@ Definition dialvia_op (pc : option cred) (connect_hdr : hmap) (h : hmap) (op : s
 Definition dialvia_connect_header (pc : option cred) (connect_hdr : hmap) : hmap :=
   fold_left (dialvia_op pc connect_hdr) dialvia_header_ops [].
 
-(* what the proxy itself emits for one client request that passed access control *)
-Definition forward (om : option matcher) (u : upstream) (q : req) : list out_msg :=
+(* net/http Transport's own CONNECT for an https target behind an HTTP proxy (modelled):
+   an otherwise empty head with Proxy-Authorization from the proxy URL's userinfo *)
+Definition transport_connect_header (pc : option cred) : hmap :=
+  match pc with Some c => h_set proxy_authorization (basic_value c) [] | None => [] end.
+
+Definition is_https (scheme : str) : bool := str_eqb scheme (b "https").
+
+(* what the proxy itself emits for one client request that passed access control;
+   scheme = req.URL.Scheme of a non-CONNECT request ("http" / "https") *)
+Definition forward (om : option matcher) (u : upstream) (scheme : str) (q : req) : list out_msg :=
   let pc := upstream_cred om u in
   if is_connect q then
     let h := request_pipeline om [] (r_host q) (r_hdr q) in   (* CONNECT: URL.Scheme is empty *)
@@ -271,17 +281,22 @@ Definition forward (om : option matcher) (u : upstream) (q : req) : list out_msg
     | _ => [{| o_to := ToProxy; o_kind := MConnect; o_fields := dialvia_connect_header pc h |}]
     end
   else
-    let h := request_pipeline om (b "http") (r_host q) (r_hdr q) in
+    let h := request_pipeline om scheme (r_host q) (r_hdr q) in
     match u with
     | UpNone => [{| o_to := ToOrigin; o_kind := MPlain; o_fields := h |}]
     | _ =>
-        (* net/http Transport, plain-http target through an HTTP proxy: absolute-form request
-           to the proxy with Proxy-Authorization from the proxy URL's userinfo *)
-        [{| o_to := ToProxy; o_kind := MPlain;
-            o_fields := match pc with
-                        | Some c => h_set proxy_authorization (basic_value c) h
-                        | None => h
-                        end |}]
+        if is_https scheme then
+          (* the Transport CONNECTs through the proxy, then sends the request inside TLS *)
+          [{| o_to := ToProxy; o_kind := MConnect; o_fields := transport_connect_header pc |};
+           {| o_to := ToOrigin; o_kind := MTunnelled; o_fields := h |}]
+        else
+          (* plain-http target through an HTTP proxy: absolute-form request to the proxy with
+             Proxy-Authorization from the proxy URL's userinfo (Header.Set) *)
+          [{| o_to := ToProxy; o_kind := MPlain;
+              o_fields := match pc with
+                          | Some c => h_set proxy_authorization (basic_value c) h
+                          | None => h
+                          end |}]
     end.
 
 Definition has_field (k : str) (h : hmap) : bool :=
